@@ -79,6 +79,8 @@ def cases(draw, name):
         for k in pd:       # moderate widths: wide distributions reach parameter values where shapes degenerate
             if k.endswith("_pd"):
                 pd[k] = min(pd[k], 0.2)
+            if k.endswith("_pd_nsigma"):
+                pd[k] = min(pd[k], 3.0)     # ... or where no mesh point satisfies the model's validity condition
     nmodes = len(info.radius_effective_modes or [])
     mode = draw(st.integers(1, nmodes)) if nmodes else 0
     qrel = [S.sig(10 ** e) for e in draw(st.lists(st.floats(-3, math.log10(20.0)), min_size=2, max_size=5))]
@@ -169,6 +171,14 @@ def check_fq(case, rec):
         pp.update(case["pd"])
         pf = dict(pp)
         pf["radius_effective_mode"] = case["mode"]
+        if info.valid:
+            # a dispersed request none of whose mesh points satisfies the model's validity condition has no particle
+            # to report on (empty-mesh behaviour is C01's subject)
+            from .. import oraclelib, refmath
+            ref = refmath.reference_mean(oraclelib.get_shim(name, c01._workdir()), info, dict(pp), q[:1], "1d", cutoff=0.0)
+            if ref["nused"] == 0:
+                rec.cls("no-valid-mesh-point")
+                return
         kw = {} if case.get("default_cutoff") else {"cutoff": 0.0}
         if not kw:
             rec.cls("default-cutoff")
